@@ -16,16 +16,20 @@ import mir
 import framecheck
 import native
 import nonint
+import pipeline
 import travcheck as tc
 from common import src_line
 
 LEVEL = 'model_checking'
+TASK_CAP_S = 900      # wall-clock cap per self-composition task; exceeding it is inconclusive, never a verdict
 _S = None
 
 
 def _task(job):
     kind, cfg = job
     t0 = time.time()
+    import tmir
+    tmir.DEADLINE[0] = t0 + TASK_CAP_S
     try:
         if kind == 'resolve':
             pairs, nq, viol = nonint.resolve_pair(_S, *cfg)
@@ -80,6 +84,8 @@ def check(run):
     for what, fn in (('the per-file closure captures only a shared reference to the key map, which flows only into resolve_types and check_imports', framecheck.validate_closure_flow),
                      ('resolve_types hands the key map only to resolve_type; check_imports / resolve_type only look keys up in it (get / contains_key)', framecheck.defined_uses),
                      ('the key map is values().flat_map(ast).map(|f| (f.get_key(), f.item.get_kind())).collect()', framecheck.collect_keys),
+                     ('the import / forward-declaration sets handed to resolve_types are collected from the file\'s own statements (qualified names) and not touched afterwards; the import and '
+                      'declaration checks receive the file\'s own statements, the resolved set and the import map of this file', pipeline.scope_facts),
                      ('no mutable global state in the crate (statics, thread-locals, interior mutability) outside the verif-hooks recorder', framecheck.no_globals)):
         t0 = time.time()
         try:
